@@ -526,7 +526,8 @@ func scenC16(w *vsim.World, spec *vsim.Spec) {
 	// that had arrived seconds before a bound counted from the start of the quiet phase only).
 	quietStart := time.Now()
 	bound := func() time.Duration {
-		return 20*time.Minute + 30*s.k.PollInterval + time.Duration(len(s.api.uuids)+s.toArrive)*9*time.Second
+		// (a thorough run with 95 containers, one-container pages and a restarted dispatcher needed 37 min for one of them)
+		return time.Hour + 30*s.k.PollInterval + time.Duration(len(s.api.uuids)+s.toArrive)*30*time.Second
 	}
 	dueAt := func(ac *apiCtr) time.Time {
 		t := quietStart
